@@ -272,8 +272,30 @@ endpats: Final = {
     "'''": r"(?:[^'\\]|\\.|'(?!''))*'''",
     '"""': r'(?:[^"\\]|\\.|"(?!""))*"""',
 }
-StartLBrace = r".*?(?=\{(?!\{)){"
-EndRBrace = r".*?(?=\}(?!\}))}"
+
+
+def _fstring_text(quote: str, raw: bool) -> str:
+    """literal part of an f-string: stops at an unescaped brace and never runs past the closing quote"""
+    q = quote[0]
+    named = "" if raw else r"|N\{"  # named unicode escape: its braces are not a replacement field
+    body = rf"[^{q}\\{{}}]|\\(?![{{}}]{named})[\s\S]?|\\(?=[{{}}])|{{{{|}}}}"
+    if not raw:
+        body += r"|\\N\{[^{}]*\}"
+    if len(quote) == 3:
+        body += rf"|{q}(?!{q}{q})"
+    return f"(?:{body})*"
+
+
+def _fstring_patterns(quote: str, raw: bool) -> str:
+    text = _fstring_text(quote, raw)
+    return choice(LBrace=text + r"\{(?!\{)", End=text + quote)
+
+
+def _fstring_spec_patterns(quote: str) -> str:
+    q = quote[0]
+    text = rf"(?:[^{q}\\{{}}]|\\[\s\S]?)*"
+    return choice(LBrace=text + r"\{", RBrace=text + r"\}")
+
 
 tabsize = 8
 
@@ -359,6 +381,12 @@ class TokenizerState:
 
     def in_colon(self) -> bool:
         return self.in_mode(ModeInColon)
+
+    def fstring_quote(self) -> str:
+        for prog in reversed(self.end_progs):
+            if prog.quote:
+                return prog.quote
+        return '"'
 
     def in_multi_line_string(self) -> bool:
         return bool(self.end_progs) and (len(self.end_progs[-1].quote) == 3)
@@ -474,7 +502,7 @@ def next_psuedo_matches(state: TokenizerState) -> TokenInfo | None:
         quote = match.group("Quote") or '"'
         if "f" in token.lower():
             token_type = Token.FSTRING_START
-            pattern = choice(LBrace=StartLBrace, End=endpats[quote])
+            pattern = _fstring_patterns(quote, "r" in token.lower())
             state.add_prog(end, end, pattern=pattern, quote=quote, mode=ModeMiddle(state.parenlev))
         else:
             pattern = endpats[quote]
@@ -499,7 +527,13 @@ def next_psuedo_matches(state: TokenizerState) -> TokenInfo | None:
                 state.pop_mode((state.lnum, end))
             state.parenlev -= 1
         elif token == ":" and state.in_braces() and state.at_parenlev():
-            state.add_prog(start + 1, end, mode=ModeInColon(state.parenlev), pattern=choice(RBrace=EndRBrace))
+            state.add_prog(
+                start + 1,
+                end,
+                mode=ModeInColon(state.parenlev),
+                pattern=_fstring_spec_patterns(state.fstring_quote()),
+                quote=state.fstring_quote(),
+            )
         token_type = Token.OP
     elif match.lastgroup == "End":  # // continuation
         state.continued = True
@@ -528,10 +562,10 @@ def next_end_tokens(state: TokenizerState) -> Iterator[TokenInfo]:
     yield TokenInfo(Token.ENDMARKER, "", (state.lnum, 0), (state.lnum, 0), "")
 
 
-def handle_fstring_progs(state: TokenizerState, endprog: EndProg) -> Iterator[TokenInfo]:
+def handle_fstring_progs(state: TokenizerState, endprog: EndProg) -> Generator[TokenInfo, None, bool]:
     endmatch = state.match(endprog.pattern)
     if (not endmatch) or (not endmatch.lastgroup):
-        return None
+        return False
     start, end = endmatch.span(endmatch.lastgroup)
     if endmatch.lastgroup == "End":  # quote match
         middle_end = end - len(endprog.quote)
@@ -572,6 +606,7 @@ def handle_fstring_progs(state: TokenizerState, endprog: EndProg) -> Iterator[To
             state.pop_mode((state.lnum, end))  # in braces
 
     state.pos = end
+    return True
 
 
 def handle_end_progs(state: TokenizerState) -> Iterator[TokenInfo]:
@@ -584,7 +619,8 @@ def handle_end_progs(state: TokenizerState) -> Iterator[TokenInfo]:
         return
 
     if state.in_fstring() or state.in_colon():
-        yield from handle_fstring_progs(state, state.end_progs[-1])
+        if (yield from handle_fstring_progs(state, state.end_progs[-1])):
+            return  # a brace or the closing quote was found: the rest of the line is scanned normally
         # else:
         #     raise TokenError(f"Expected {endprog.quote} inside f-string", (state.lnum, state.pos))
 
